@@ -280,6 +280,7 @@ func (fr *Frame) inline(site ssa.Instruction, fn *ssa.Function, args []*Term, bi
 
 func (fr *Frame) applyContract(fc *FuncContract, site ssa.Instruction, obj *types.Func, sig *types.Signature, names []string, tys []types.Type, args []*Term, st *State) []*Term {
 	vc := fr.vc
+	var lastOut []*Term
 	if fc.Trusted {
 		vc.assumptions["trusted contract: "+fc.Key] = true
 	}
@@ -302,6 +303,24 @@ func (fr *Frame) applyContract(fc *FuncContract, site ssa.Instruction, obj *type
 			nm = nm[i+1:]
 		}
 		top.callStates[nm] = pre
+		if top.callArgs == nil {
+			top.callArgs = map[string][]Binding{}
+			top.callRes = map[string][]Binding{}
+		}
+		var ab []Binding
+		for i := range args {
+			ab = append(ab, Binding{term: args[i], typ: tys[i]})
+		}
+		top.callArgs[nm] = ab
+		defer func(nm string) {
+			// results of the (last) call, for res(callee, i) in postconditions
+			var rb []Binding
+			r := sig.Results()
+			for i := 0; i < r.Len() && i < len(lastOut); i++ {
+				rb = append(rb, Binding{term: lastOut[i], typ: r.At(i).Type()})
+			}
+			top.callRes[nm] = rb
+		}(nm)
 	}
 	binds := map[string]Binding{}
 	for i, n := range names {
@@ -434,6 +453,7 @@ func (fr *Frame) applyContract(fc *FuncContract, site ssa.Instruction, obj *type
 	for _, c := range fc.Defines_ {
 		vc.assume(st.guard, mk(st).evalBool(c.Expr, c))
 	}
+	lastOut = out
 	return out
 }
 
